@@ -172,7 +172,7 @@ class C12(Check):
                         "P0 byte image kept by the orchestrator"]
 
     def budget(self, tier):
-        return {"runs": 2600, "wall_s": 75} if tier == "quick" else {"runs": 60000, "wall_s": 1500}
+        return {"runs": 2600, "wall_s": 75} if tier == "quick" else {"runs": 25000, "wall_s": 1500}
 
     def generate(self, rng, tier):
         cfg = gen_config(rng, small=True, avoid=("mmp",))
